@@ -254,6 +254,9 @@ pub fn run(ctx: &Ctx) -> Report {
             ("truncated-utf8", b"a=\xe2\x82".to_vec()),
             ("overlong", b"a=\xc0\xaf".to_vec()),
             ("surrogate", b"a=\xed\xa0\x80".to_vec()),
+            ("valid-prefix-then-invalid-utf8", b"Action=DeleteUser&UserName=alice&\xff".to_vec()),
+            ("valid-prefix-then-truncated-utf8", b"a=1&b=2&c=\xe2\x82".to_vec()),
+            ("long-valid-prefix-then-invalid", [vec![b'k'; 300], b"=v&x=\xfe".to_vec()].concat()),
         ];
         for b in 0x80u16..=0xff {
             v.push(("single-high-byte", vec![b as u8]));
@@ -263,6 +266,23 @@ pub fn run(ctx: &Ctx) -> Report {
     let labels: Vec<String> = UNKNOWN_LABELS.iter().map(|s| s.to_string()).collect();
     let base2 = total * 4;
     let n2 = (bad_bodies.len() + labels.len() * 3) as u64 * 2;
+    // a correctly signed folded form request (parameters in URL and body), validated right after every refused
+    // body on the same thread: what a refused body left behind must not reach the next request
+    let follow_up: Vec<Case> = [Carrier::Header, Carrier::Query]
+        .iter()
+        .map(|carrier| {
+            let mut plan = e2e::base_plan(*carrier);
+            plan.method = "POST".into();
+            plan.url_params = vec![(b"u".to_vec(), b"1".to_vec())];
+            plan.body = b"b=2&u=3".to_vec();
+            plan.body_params = Some(vec![(b"b".to_vec(), b"2".to_vec()), (b"u".to_vec(), b"3".to_vec())]);
+            plan.headers.push(("Content-Type".into(), b"application/x-www-form-urlencoded".to_vec()));
+            plan.signed.push("content-type".into());
+            let mut cfg = Cfg::basic(now);
+            cfg.fold = true;
+            Case { wire: WireReq::from_wire(&build(&plan).wire), cfg, prov: ProvSpec::standard() }
+        })
+        .collect();
     let st2 = par_sweep(n2, |i, st| {
         let carrier = if i % 2 == 0 { Carrier::Header } else { Carrier::Query };
         let k = (i / 2) as usize;
@@ -303,6 +323,19 @@ pub fn run(ctx: &Ctx) -> Report {
                 observed: r.label(),
                 known: None,
             });
+        }
+        // the follow-up request on the same thread
+        let fu = &follow_up[(i % 2) as usize];
+        let before = st.violations.len();
+        let j = e2e::judge_into(base2 + i, fu, st);
+        if st.violations.len() > before {
+            if let Some(v) = st.violations.last_mut() {
+                v.what = format!("after-a-refused-form-body({}):{}", label, v.what);
+                v.case["preceded_by"] = json!({"e2e": case});
+            }
+        }
+        if !j.reference.accepted() {
+            crate::core::machinery_error("C12 (2): the reference refuses the follow-up request");
         }
     });
     st = st.merge(st2);
@@ -482,7 +515,7 @@ pub fn run(ctx: &Ctx) -> Report {
     Report {
         stats: st,
         rule: format!(
-            "(1) every URL parameter list x every body parameter list, each of 0..2 (thorough: 0..3) pairs over names {{a,b}} x values {{1,2,empty}} (all same-name-in-both patterns) x {} content-type spellings (absent, exact, charset utf-8/UTF-8/utf8, extra parameter, valueless charset, iso-8859-1, bogus, case variant, longer type, text/plain, json, two headers in both orders, padded) x {{fold off, fold on, fold on + S3}} x carrier; each case signed two ways — F (body parameters as if appended to the URL, payload = empty) and V (URL only, payload = body) — and both judged by the reference verifier; returned body / URI compared with the statement; F and V never both accepted unless identical; (2) 133 undecodable bodies and 3 unknown charset labels x 3 bodies => InvalidBodyEncoding/400 with the provider untouched; (3) where folding does not apply — under {{default, S3, fold, S3+fold}}, with no / a signed / an unsigned X-Amz-Content-Sha256 header carrying the digest of the signed body, or UNSIGNED-PAYLOAD — every single-bit flip of every body byte (4 bodies incl. all 256 byte values), an append, a truncation, a replacement and an emptied body are refused, and the unchanged request (also the folded one, whose declared digest is not that of an empty body) is accepted; (5) 27 form bodies of 65 kB .. 200 kB whose parameters are small (percent-escaped unreserved characters, runs of '&', 4000 tiny parameters) are folded and accepted on both carriers. states = distinct reference canonical requests",
+            "(1) every URL parameter list x every body parameter list, each of 0..2 (thorough: 0..3) pairs over names {{a,b}} x values {{1,2,empty}} (all same-name-in-both patterns) x {} content-type spellings (absent, exact, charset utf-8/UTF-8/utf8, extra parameter, valueless charset, iso-8859-1, bogus, case variant, longer type, text/plain, json, two headers in both orders, padded) x {{fold off, fold on, fold on + S3}} x carrier; each case signed two ways — F (body parameters as if appended to the URL, payload = empty) and V (URL only, payload = body) — and both judged by the reference verifier; returned body / URI compared with the statement; F and V never both accepted unless identical; (2) 133 undecodable bodies and 3 unknown charset labels x 3 bodies => InvalidBodyEncoding/400 with the provider untouched, each followed on the same thread by a correctly signed folded request that must be accepted; (3) where folding does not apply — under {{default, S3, fold, S3+fold}}, with no / a signed / an unsigned X-Amz-Content-Sha256 header carrying the digest of the signed body, or UNSIGNED-PAYLOAD — every single-bit flip of every body byte (4 bodies incl. all 256 byte values), an append, a truncation, a replacement and an emptied body are refused, and the unchanged request (also the folded one, whose declared digest is not that of an empty body) is accepted; (5) 27 form bodies of 65 kB .. 200 kB whose parameters are small (percent-escaped unreserved characters, runs of '&', 4000 tiny parameters) are folded and accepted on both carriers. states = distinct reference canonical requests",
             n_ct
         ),
         bounds: json!({"url_lists": n_lists, "body_lists": n_lists, "content_types": n_ct, "bit_flip_cases": n3}),
